@@ -318,6 +318,8 @@ class Tokenizer:
         self._emit_all(self._pop())
         if self._context & contexts.FAIL_NEXT:
             self._context ^= contexts.FAIL_NEXT
+        # The braces were markup, not text: they say nothing about what follows.
+        self._context &= ~contexts.FAIL_ON_LBRACE
 
     def _handle_template_param(self):
         """Handle a template parameter at the head of the string."""
